@@ -30,6 +30,7 @@ func runH1(tr *vh.Trace, laddr, name string, rng *rand.Rand, nclients, per int) 
 	tr.Emit(vh.Ev{"ev": "run", "name": name, "mode": "h1", "case": map[string]interface{}{"clients": nclients, "per": per}})
 	var wg sync.WaitGroup
 	var total, errs, noreply int64
+	lost0 := atomic.LoadInt64(&lost)
 	var connSeq int64
 	for c := 0; c < nclients; c++ {
 		wg.Add(1)
@@ -40,10 +41,16 @@ func runH1(tr *vh.Trace, laddr, name string, rng *rand.Rand, nclients, per int) 
 			var cl *e2e.HTTPClient
 			cname := ""
 			for i := 0; i < per; i++ {
+				if atomic.LoadInt64(&lost) > maxLost {
+					return // the proxy has stopped answering: what was recorded so far is judged
+				}
 				if cl == nil {
 					var err error
 					cl, err = e2e.DialHTTP(laddr)
-					vh.Must(err, "dial proxy")
+					if err != nil {
+						atomic.AddInt64(&lost, 8)
+						return
+					}
 					cname = fmt.Sprintf("%s-k%d", name, atomic.AddInt64(&connSeq, 1))
 				}
 				tok := fmt.Sprintf("%s-c%di%d", name, c, i)
@@ -61,8 +68,13 @@ func runH1(tr *vh.Trace, laddr, name string, rng *rand.Rand, nclients, per int) 
 					cl = nil
 					continue
 				}
-				o := cl.Recv(evWait+time.Second, 0)
+				d := evWait + time.Second
+				if atomic.LoadInt64(&lost) > lost0 {
+					d = 500 * time.Millisecond
+				}
+				o := cl.Recv(d, 0)
 				if o.Kind != "response" {
+					atomic.AddInt64(&lost, 1)
 					atomic.AddInt64(&noreply, 1)
 					cl.Close()
 					cl = nil
@@ -94,10 +106,10 @@ func mainH1(tr *vh.Trace, rs *vh.Out, tmp string, shard, rounds int) {
 	laddr := startMosnH1(tmp, up.Addr)
 	rng := rand.New(rand.NewSource(vh.Seed()*1000 + 500 + int64(shard)))
 	n := 0
-	for i := 0; i < rounds; i++ {
+	for i := 0; i < rounds && atomic.LoadInt64(&lost) <= maxLost; i++ {
 		n++
 		rs.Put(runH1(tr, laddr, fmt.Sprintf("p%d.%d", shard, i), rng, 2+rng.Intn(5), 8+rng.Intn(10)))
 	}
-	rs.Put(map[string]interface{}{"summary": true, "runs": n})
+	rs.Put(map[string]interface{}{"summary": true, "runs": n, "skipped": rounds - n, "lost": atomic.LoadInt64(&lost)})
 	fmt.Printf("c02 h1 runs=%d events=%d\n", n, tr.Len())
 }
